@@ -859,3 +859,66 @@ def datetime_awareness(e, fi, res, _depth=0):
 def d_is_now_factory(e):
     """`datetime.now` (uncalled) used as a default_factory: naive"""
     return (dotted(e) or "").endswith("datetime.now") or (dotted(e) or "") == "datetime.now"
+
+
+def stale_shared_memos(p, res, rels):
+    """[(method, store node, memo name, unkeyed self attributes)]: a memo that outlives the object — a mutable container bound
+    at module level — is filled by a *method* under a key that does not mention instance state the memoised computation reads
+    (`self.max_depth`, the profile's bounds …).  Another instance, or the same one after its configuration changed, is then
+    answered with a value computed under different settings."""
+    import ast as _a
+    out = []
+    for mod in [m for m in p.modules.values() if m.rel in rels]:
+        memos = set()
+        for st in mod.tree.body:
+            tg = st.targets if isinstance(st, _a.Assign) else ([st.target] if isinstance(st, _a.AnnAssign) and st.value is not None else [])
+            v = getattr(st, "value", None)
+            if v is not None and (isinstance(v, (_a.Dict,)) or (isinstance(v, _a.Call) and (dotted(v.func) or "").split(".")[-1] in ("dict", "OrderedDict", "defaultdict", "WeakValueDictionary", "LRUCache"))):
+                memos |= {t.id for t in tg if isinstance(t, _a.Name)}
+        if not memos:
+            continue
+        # module-level helpers that file a value under one of their parameters (`_remember(key, value)`)
+        helpers = {}
+        for hf in [f for f in p.all_funcs if f.module is mod and f.cls is None]:
+            ps = hf.params()
+            for n in _a.walk(hf.node):
+                if isinstance(n, _a.Assign) and len(n.targets) == 1 and isinstance(n.targets[0], _a.Subscript) and isinstance(n.targets[0].value, _a.Name) and n.targets[0].value.id in memos \
+                        and isinstance(n.targets[0].slice, _a.Name) and n.targets[0].slice.id in ps:
+                    helpers[hf.name] = (n.targets[0].value.id, ps.index(n.targets[0].slice.id))
+        for fi in [f for f in p.all_funcs if f.module is mod and f.cls is not None and "self" in f.params()]:
+            methods = set(fi.cls.methods)
+            stores = []
+            for n in _a.walk(fi.node):
+                if isinstance(n, _a.Call) and isinstance(n.func, _a.Name) and n.func.id in helpers and len(n.args) > helpers[n.func.id][1]:
+                    stores.append((n, helpers[n.func.id][0], n.args[helpers[n.func.id][1]]))
+            for n in _a.walk(fi.node):
+                if isinstance(n, _a.Assign) and len(n.targets) == 1 and isinstance(n.targets[0], _a.Subscript) and isinstance(n.targets[0].value, _a.Name) and n.targets[0].value.id in memos:
+                    stores.append((n, n.targets[0].value.id, n.targets[0].slice))
+                if isinstance(n, _a.Call) and isinstance(n.func, _a.Attribute) and n.func.attr == "setdefault" and isinstance(n.func.value, _a.Name) and n.func.value.id in memos and n.args:
+                    stores.append((n, n.func.value.id, n.args[0]))
+            if not stores:
+                continue
+
+            def self_attrs(e, depth=0):
+                acc = set()
+                for x in _a.walk(e):
+                    if is_self_attr(x) and isinstance(x.ctx, _a.Load) and x.attr not in methods:
+                        acc.add(x.attr)
+                    if isinstance(x, _a.Name) and depth < 2:
+                        for a in _a.walk(fi.node):
+                            if isinstance(a, _a.Assign) and any(isinstance(t, _a.Name) and t.id == x.id for t in a.targets) and a.value is not e:
+                                acc |= self_attrs(a.value, depth + 1)
+                return acc
+            reads = set()
+            for x in _a.walk(fi.node):
+                if is_self_attr(x) and isinstance(x.ctx, _a.Load) and x.attr not in methods:
+                    reads.add(x.attr)
+                if isinstance(x, _a.Call) and is_self_attr(x.func) and x.func.attr in methods:
+                    callee = fi.cls.methods[x.func.attr]
+                    reads |= {y.attr for y in _a.walk(callee.node) if is_self_attr(y) and isinstance(y.ctx, _a.Load) and y.attr not in methods}
+            reads = {a for a in reads if "lock" not in a.lower() and not a.startswith("__")}
+            for n, name, key in stores:
+                missing = sorted(reads - self_attrs(key))
+                if missing:
+                    out.append((fi, n, name, missing))
+    return out
